@@ -571,6 +571,71 @@ def identity_jobs(tier, rng, g):
     return jobs, params
 
 
+def consistent_words(keys, maxlen):
+    """every physically consistent history of <= maxlen events over `keys` (press / release / OS repeat of a held key)"""
+    out = []
+
+    def rec(w, down):
+        if w:
+            out.append(list(w))
+        if len(w) == maxlen:
+            return
+        for k in keys:
+            if k in down:
+                rec(w + [["u", k]], down - {k})
+                rec(w + [["r", k]], down)
+            else:
+                rec(w + [["d", k]], down | {k})
+    rec([], frozenset())
+    return out
+
+
+def identity_layer_jobs(tier, rng, g, base_params):
+    """identity keys (unmapped with process-unmapped-keys / `_` / mapped to themselves on the base layer) under a second
+    layer that maps them to other keys, reached by layer-while-held / layer-toggle / layer-switch"""
+    t = g["t"]
+    fromset = {c for c, _ in t["from"]}
+    mods = set(t["modifiers"])
+    plain = [(e["n"], e["c"]) for e in t["names"]
+             if quote(e["n"]) == e["n"] and e["n"].isascii() and e["n"].isalnum() and 1 < e["c"] < 128 and e["c"] in fromset
+             and e["c"] not in mods and not e["n"].isdigit()]
+    jobs = []
+    # layer-toggle is the documented other spelling of layer-while-held
+    acts = [("held", "(layer-while-held nav)", "_"), ("held", "(layer-toggle nav)", "_"), ("flip", "(layer-switch nav)", "(layer-switch l0)")]
+    for way in ("unmapped", "trans", "self"):
+        for ai, (mode, act, back) in enumerate(acts):
+            picks, seen = [], set()
+            while len(picks) < 5:
+                n, c = rng.choice(plain)
+                if c not in seen:
+                    seen.add(c)
+                    picks.append((n, c))
+            (L, Lc), (K1, K1c), (K2, K2c), (O1, O1c), (O2, O2c) = picks
+            use_map = way == "unmapped" or (ai + ("trans", "self").index(way)) % 2 == 0 if way != "unmapped" else True
+            if way == "unmapped":
+                cfg = "(defcfg process-unmapped-keys yes)\n(defsrc %s)\n(deflayer l0 %s)\n" % (L, act)
+            else:
+                cfg = "(defsrc %s %s %s)\n(deflayer l0 %s %s)\n" % (L, K1, K2, act, "_ _" if way == "trans" else "%s %s" % (K1, K2))
+            if use_map:
+                cfg += "(deflayermap (nav) %s%s %s %s %s)\n" % ("" if back == "_" else "%s %s " % (L, back), K1, O1, K2, O2)
+            else:
+                cfg += "(deflayer nav %s %s %s)\n" % (back, O1, O2)
+            params = dict(base_params, lay={"k": Lc, "mode": mode, "remap": [{"c": K1c, "o": O1c}, {"c": K2c, "o": O2c}]})
+            scripts = []
+            for w in consistent_words([K1c, Lc], 5 if tier == "quick" else 7):
+                s = []
+                for ev in w:
+                    s += [ev, ["t", 1]]
+                down = {ev[1] for ev in w if ev[0] == "d" and w.count(["d", ev[1]]) > w.count(["u", ev[1]])}
+                for k in sorted(down):
+                    s += [["u", k], ["t", 1]]
+                scripts.append(s + [["t", 2]])
+            for _ in range(30 if tier == "quick" else 300):
+                scripts.append(rand_history(rng, [K1c, K2c, Lc], rng.randint(4, 24), [0, 1, 1, 2], tail=3, repeat_p=0.3))
+            jobs.append({"cfg": cfg, "params": params, "tag": "lay_%s_%d" % (way, ai), "scripts": scripts})
+    return jobs
+
+
 # ------------------------------------------------------------------ part P: no-op codes on every output path
 # The configurations send a no-op key down one output path each; P_C11 in "paths" mode (I2 only) judges what the real
 # code wrote.  A small subset is also explored exhaustively with L1 (mc.check_instance: TLC over Kanata.tla || P_C11,
@@ -1060,7 +1125,10 @@ def run(tier, seed):
 
     def part_I():
         jobs, params = identity_jobs(tier, rng, g)
-        jobs = shard_local_index(jobs)
+        ljobs = identity_layer_jobs(tier, random.Random(seed + 37), g, params)
+        res.extra["identity_under_remapping_layer"] = {"configurations": len(ljobs), "scripts": sum(len(j["scripts"]) for j in ljobs)}
+        res.samples.append({"identity_layer_cfg": ljobs[0]["cfg"], "lay": ljobs[0]["params"]["lay"], "script": ljobs[0]["scripts"][40]})
+        jobs = shard_local_index(jobs + ljobs)
         errs = par_validate(res, "P_C11", jobs, wd, "c11_id", 6 if tier == "quick" else 10)
         for e in sorted(errs, key=lambda e: e["job"])[:20]:
             j, s = script_of(jobs, e["job"], 0)
